@@ -138,8 +138,8 @@ def _c06_pre(run, op, ctx):
 
 
 def _c06_post(run, op, ctx, st):
-    O.C04(run.t, run.m, ctx)
     if op[0] != "page" or st is None:
+        O.C04(run.t, run.m, ctx)
         return
     E, K, create = st
     l = op[1]
@@ -150,6 +150,52 @@ def _c06_post(run, op, ctx, st):
             # may be a longer scheme/www variation owned by the same webentity
             expect(t.retrieve_webentity(l) == run.m.pref[tgt], "C06: page does not resolve to the webentity of max(E,K)", {"lru": repr(l), "got": t.retrieve_webentity(l), "exp": run.m.pref[tgt], "prefix": repr(tgt)})
             expect(run.m.pref.get(t.retrieve_prefix(l)) == run.m.pref[tgt] and len(t.retrieve_prefix(l)) >= len(tgt), "C06: defining prefix of the page", repr(l))
+    O.C04(run.t, run.m, ctx)
+
+
+def _op_lrus(op):
+    k = op[0]
+    if k == "page":
+        return [op[1]]
+    if k == "pages":
+        return list(op[1])
+    if k == "links":
+        return [x for pr in op[1] for x in pr]
+    if k == "batch":
+        return [s for s, ts in op[1]] + [x for s, ts in op[1] for x in ts]
+    if k in ("create",):
+        return list(op[1])
+    if k in ("addp", "rmp", "move"):
+        return [op[1]]
+    return []
+
+
+def _c04_pre(run, op, ctx):
+    """resolve the LRUs the request is about BEFORE it runs (and keep the answers out
+    of the way): resolution afterwards must reflect the request's net effect"""
+    TE = O._TE()
+    qs = _op_lrus(op)[:4]
+    for t in run.ts:
+        for q in qs:
+            try:
+                t.retrieve_webentity(q)
+            except TE:
+                pass
+    return qs
+
+
+def _c04_post(run, op, ctx, qs):
+    TE = O._TE()
+    m = run.m
+    for t in run.ts:
+        for q in reversed(qs or []):
+            e = m.resolve(q)
+            try:
+                w = t.retrieve_webentity(q)
+                p = t.retrieve_prefix(q)
+                expect(e is not None and (p, w) == e, "C04: resolution after the request is not the longest attached stem-prefix", [repr(q), repr(e), repr(p), w])
+            except TE:
+                expect(e is None, "C04: resolution failed although a stem-prefix carries a webentity", [repr(q), repr(e)])
 
 
 def _c11_pre(run, op, ctx):
@@ -218,8 +264,8 @@ def _c15_post(run, op, ctx, st):
     O.C03(mem, run.m, ctx)
 
 
-STEP_PRE = {"C06": _c06_pre, "C11": _c11_pre}
-STEP_POST = {"C06": _c06_post, "C11": _c11_post, "C12": _c12_post, "C15": _c15_post}
+STEP_PRE = {"C04": _c04_pre, "C06": _c06_pre, "C11": _c11_pre}
+STEP_POST = {"C04": _c04_post, "C06": _c06_post, "C11": _c11_post, "C12": _c12_post, "C15": _c15_post}
 
 
 # --------------------------------------------------------------------------- exhaustive small scope
